@@ -146,6 +146,20 @@ def wiring(model):
                 a[kw.arg] = kw.value
             vals = {k: dotted(v) for k, v in a.items()}
             handle = dotted(st.targets[0])
+            deferred_store = None
+            if handle and '.' not in handle:
+                # the result goes to a local first: the handle is the self attribute that local is stored into later (also as an element of a tuple assignment)
+                for st2 in walk_shallow(start.node):
+                    if isinstance(st2, ast.Assign):
+                        for t2 in st2.targets:
+                            pairs2 = list(zip(t2.elts, st2.value.elts)) if isinstance(t2, ast.Tuple) and isinstance(st2.value, ast.Tuple) and len(t2.elts) == len(st2.value.elts) else [(t2, st2.value)]
+                            for a2, b2 in pairs2:
+                                if isinstance(b2, ast.Name) and b2.id == handle and dotted(a2) and dotted(a2).startswith(selfn + '.'):
+                                    deferred_store = st2
+                                    handle_attr = dotted(a2)
+                if deferred_store is None:
+                    raise AnalysisError('start: the created thread is bound to the local %s and never stored in a handle of the fabric' % handle)
+                handle = handle_attr
             reg = [v for v in vals.values() if v and v.split('.', 1)[-1] in dict_fields]
             if len(reg) != 1:
                 raise AnalysisError('start: a thread is created without exactly one subscription registry')
@@ -157,7 +171,7 @@ def wiring(model):
             others = [v for k, v in vals.items() if v and v not in reg and v not in runner and v != handle and v.startswith(selfn + '.')]
             w.threads[regattr] = {'runner': fab.methods[runner[0].split('.', 1)[1]], 'handle': handle.split('.', 1)[1] if handle else None,
                                   'queue': [o.split('.', 1)[1] for o in others if 'queue' in o], 'call': st.value, 'args': a,
-                                  'handle_arg': [k for k, v in vals.items() if v == handle]}
+                                  'handle_arg': [k for k, v in vals.items() if v == handle], 'create_stmt': st, 'store_stmt': deferred_store or st}
     if len(w.threads) != 2:
         raise AnalysisError('start: expected two delivery threads, found %s' % sorted(w.threads))
     # subscribe must write, per kind, a registry that one of the threads was started with - and a different one per kind
